@@ -24,8 +24,10 @@ TRUSTED_BASE = [
     "the cumulative sum is compared bit for bit with the model at Float, the centred curve within 64 ulp (numpy's "
     "pairwise mean)",
     "PyYAML dump/load of the output; SQLite view average_rising_depth",
+    "translator tools/gen_formulas.py: the arithmetic of the named source functions (an expression, or a whole body of assignments, if and return) as Python's own `ast` parses it -> Lean terms over the carrier class in lean/FormulaTie/Gen*.lean; that each is the model's definition is re-checked by `rfl` / a short unfolding on every run (lean/FormulaTie/*.lean)",
 ]
 SQL_TIE = ('simulate_rise',)
+FORMULA_TIE = ('Simulate', 'Spline')
 ASSUMPTIONS = ["increasing level grids; specific yield positive for the monotonicity clause"]
 RULE = ("specific-yield parameter sets of both kinds x increasing grids inside, straddling and beyond the knot range, "
         "through simulate_rise.compute_rise_curve; `spowtd simulate rise` with and without --observations on planted "
